@@ -186,4 +186,51 @@ def etaShrinkagePositional (omegas : List Rat) (ie : List (String × List Rat)) 
 def indShrinkageL (etaNames : List String) (omegas : List Rat) (diag : List (String × Rat)) : List (String × Rat) :=
   diag.map (fun nd => (nd.1, indShrinkage nd.2 ((lookupS (etaNames.zip omegas) nd.1).getD 0)))
 
+/-! ### missing values: replicates whose estimation failed (NaN)
+
+  `calculate_results` builds one DataFrame of replicate estimates and takes every statistic of it
+  with pandas (`mean`, `median`, `std`, `min`, `max`, `quantile`, `cov`), which all *skip* NaN
+  cells: each statistic of a column is evaluated on the valid estimates of that column, and is
+  NaN (`none`) when there are none (variance: fewer than two).  `create_distribution` is used
+  for the parameter table and for the OFV table (whose columns are partially or entirely NaN). -/
+
+/-- the valid (non-NaN) estimates of a column, in replicate order -/
+def valid (xs : List (Option Rat)) : List Rat := xs.filterMap id
+
+/-- a pandas reduction with `skipna`, defined on at least `k` valid values -/
+def skipna (k : Nat) (f : List Rat → Rat) (xs : List (Option Rat)) : Option Rat :=
+  if (valid xs).length < k then none else some (f (valid xs))
+
+/-- one row of `create_distribution(df)`: min, the eight percentiles, median, max of the valid estimates -/
+def distM (xs : List (Option Rat)) : List (Option Rat) := distQs.map (fun q => skipna 1 (quantile q) xs)
+
+/-- pairwise-complete replicates of two columns (`DataFrame.cov`) -/
+def completePairs : List (Option Rat) → List (Option Rat) → List (Rat × Rat)
+  | some x :: xs, some y :: ys => (x, y) :: completePairs xs ys
+  | _ :: xs, _ :: ys => completePairs xs ys
+  | _, _ => []
+
+/-- `DataFrame.cov` entry: covariance over the replicates where both parameters are valid -/
+def covM (xs ys : List (Option Rat)) : Option Rat :=
+  let ps := completePairs xs ys
+  if ps.length < 2 then none else some (cov (ps.map (·.1)) (ps.map (·.2)))
+
+structure ColStatsM where
+  mean : Option Rat
+  median : Option Rat
+  bias : Option Rat
+  var : Option Rat
+  rse2 : Option Rat
+  dist : List (Option Rat)
+  deriving Repr
+
+/-- one row of `parameter_statistics` + `parameter_distribution` (or of `ofv_statistics` +
+    `ofv_distribution`) for a column with missing values -/
+def colStatsM (xs : List (Option Rat)) (orig : Rat) : ColStatsM :=
+  { mean := skipna 1 mean xs, median := skipna 1 median xs, bias := skipna 1 (fun v => mean v - orig) xs,
+    var := skipna 2 var xs, rse2 := skipna 2 (fun v => var v / (mean v * mean v)) xs, dist := distM xs }
+
+def covMatrixM (cols : List (List (Option Rat))) : List (List (Option Rat)) :=
+  cols.map (fun a => cols.map (fun b => covM a b))
+
 end Pharmpy.C19.Stats
